@@ -64,6 +64,12 @@ def t_universe(n, offset, part, nparts):
 	subsets = [[x for i, x in enumerate(U) if m >> i & 1] for m in range(2 ** n)]
 	arrs = {dt: [np.array(s, dtype=dt) for s in subsets] for dt in dts}
 	N = len(subsets)
+
+	def strided(sub, dt):
+		p = np.full(2 * len(sub) + 1, U[0], dtype=dt)
+		p[1::2] = sub
+		return p[1::2]
+	views = [strided(s, base_dt) for s in subsets]       # the same sets as non-contiguous views (memory layout is not part of a set)
 	# full pair table in the base dtype (needed by every part for the triples)
 	bits = [[0] * N for _ in range(N)]
 	for i in range(N):
@@ -88,6 +94,12 @@ def t_universe(n, offset, part, nparts):
 				sh.violation('one-iff-disjoint', case, not (A & B) and bool(A | B), b)
 			if b != bits[j][i]:
 				sh.violation('symmetry', case, bits[j][i], b)
+			# layout invariance: either argument (alone, and both) as a non-contiguous view
+			for x, y, which in ((views[i], arrs[base_dt][j], 'first'), (arrs[base_dt][i], views[j], 'second'), (views[i], views[j], 'both')):
+				sh.evals += 1
+				g = f32bits(jaccarddist(x, y))
+				if g != b:
+					sh.violation('layout-invariance', dict(A=subsets[i], B=subsets[j], dtype=base_dt, strided=which), b, g)
 			# width invariance: every dtype pair
 			for da in dts:
 				for db in dts:
@@ -185,6 +197,18 @@ def replay(case, kind=None):
 	if 'n' in case:
 		return [v for v in t_nearly_identical('thorough').violations if v['case'].get('n') == case['n'] and v['case'].get('da') == case['da']][:1]
 	A, B = case['A'], case['B']
+	if 'strided' in case:
+		dt = case['dtype']
+		def mk(X, st):
+			if not st:
+				return np.array(X, dtype=dt)
+			p = np.full(2 * len(X) + 1, 0, dtype=dt); p[1::2] = X
+			return p[1::2]
+		g = f32bits(jaccarddist(mk(A, case['strided'] in ('first', 'both')), mk(B, case['strided'] in ('second', 'both'))))
+		exp = R.ref_jaccard_f32(A, B)
+		if g != exp:
+			sh.violation('layout-invariance', case, exp, g)
+		return sh.violations
 	da = case.get('da', case.get('dtype')) or 'u8'
 	db = case.get('db', case.get('dtype')) or 'u8'
 	sa, sb = set(A), set(B)
